@@ -6,6 +6,7 @@ values: int | bool | "0101" (bits) | "hex" (bytes) | [..] (seq / container field
 """
 from lib import *  # noqa
 import hashlib
+import os
 from remerkleable.basic import boolean, uint8, uint16, uint32, uint64, uint128, uint256
 from remerkleable.complex import Container, Vector, List
 from remerkleable.bitfields import Bitvector, Bitlist
@@ -123,25 +124,124 @@ def val_coq(t, v):
     raise ValueError(t)
 
 
+def _form(t, v, n):
+    """which of n equivalent constructor spellings to use for this (type, value): fixed by the input itself, so that a
+    case replays identically"""
+    if os.environ.get("VERIF_CTOR_FORMS", "1") == "0":
+        return 0
+    return int(hashlib.sha256(json.dumps([t, v], sort_keys=True, default=str).encode()).hexdigest()[:6], 16) % n
+
+
 def to_py(t, v):
-    """construct the library object for value v of type t (through the public constructors)"""
+    """construct the library object for value v of type t through the public constructors.  Each kind has several
+    equivalent spellings (list / positional / generator / tuple arguments, views or plain values, bytes or int lists,
+    coerce_view of bytes / hex text); which one is used is a function of the input."""
     k = t[0]
     C = T(t)
-    if k in ("uint", "bool"):
+    if k == "uint":
+        f = _form(t, v, 3)
+        return C(v) if f < 2 else C(C(v))                  # from a plain int / from a view of the same type
+    if k == "bool":
         return C(v)
     if k in ("bitvec", "bitlist"):
-        return C([c == "1" for c in v])
+        bits = [c == "1" for c in v]
+        f = _form(t, v, 4)
+        if f == 1 and bits:
+            return C(*bits)
+        if f == 2:
+            return C(b for b in bits)
+        if f == 3:
+            return C(tuple(bits))
+        return C(bits)
     if k in ("bytevec", "bytelist"):
-        return C(bytes.fromhex(v))
+        bs = bytes.fromhex(v)
+        f = _form(t, v, 4)
+        if f == 1:
+            return C(list(bs))
+        if f == 2:
+            return C.coerce_view(bs)
+        if f == 3:
+            return C(bytearray(bs))
+        return C(bs)
     if k in ("vec", "list"):
-        return C([to_py(t[1], x) for x in v])
+        f = _form(t, v, 6)
+        basic = is_basic(t[1])
+        if basic and f == 4:
+            els = [x for x in v]                           # plain ints / bools, coerced by the constructor
+        else:
+            els = [to_py(t[1], x) for x in v]
+        if f == 1 and els:
+            return C(*els)
+        if f == 2:
+            return C(e for e in els)
+        if f == 3:
+            return C(tuple(els))
+        if f == 5 and basic and els:
+            return C(*[x for x in v])
+        return C(els)
     if k == "cont":
-        return C(**{"f%d" % i: to_py(f, x) for i, (f, x) in enumerate(zip(t[1], v))})
+        f = _form(t, v, 3)
+        kw = {}
+        for i, (ft, x) in enumerate(zip(t[1], v)):
+            if f == 1 and ft[0] in ("uint", "bool"):
+                kw["f%d" % i] = x                          # plain value, coerced by the constructor
+            elif f == 2 and ft[0] in ("bytevec", "bytelist"):
+                kw["f%d" % i] = bytes.fromhex(x)
+            else:
+                kw["f%d" % i] = to_py(ft, x)
+        return C(**kw)
     if k == "union":
         sel, x = v
         o = union_opt(t, sel)
         return C(selector=sel, value=None if o is None or x is None else to_py(o, x))
     raise ValueError(t)
+
+
+def alt_type(t):
+    """an abstract type DIFFERENT from t whose views of the same content are coerced into t by the library (a larger
+    limit, a list for a vector, a fresh class object for a container); None if there is none"""
+    k = t[0]
+    if k in ("bitlist", "bytelist"):
+        return [k, t[1] + 7]
+    if k == "list":
+        return ["list", t[1], t[2] + 3]
+    if k == "vec":
+        return ["list", t[1], t[2] + 2]
+    return None
+
+
+def to_py_alt(t, v):
+    """a view with content v whose CLASS is not T(t) but is coerced into T(t) by assignment / append / construction"""
+    k = t[0]
+    if k == "cont":
+        # a distinct container class object with the same fields (what a second evaluation of the same class body,
+        # e.g. another fork's definition, gives)
+        ann = {"f%d" % i: T(ft) for i, ft in enumerate(t[1])}
+        _cnt[0] += 1
+        C2 = type("A%d" % _cnt[0], (Container,), {"__annotations__": ann})
+        return C2(**{"f%d" % i: to_py(ft, x) for i, (ft, x) in enumerate(zip(t[1], v))})
+    a = alt_type(t)
+    if a is None:
+        return to_py(t, v)
+    return to_py(a, v)
+
+
+def fresh_class(t):
+    """a NEW class object for type t with the same parameters (what evaluating the same type expression / class body a
+    second time gives): same tree shape, different class identity"""
+    k = t[0]
+    if k == "list":
+        return List[T(t[1]), t[2]]
+    if k == "vec":
+        return Vector[T(t[1]), t[2]]
+    if k == "bitlist":
+        return Bitlist[t[1]]
+    if k == "bitvec":
+        return Bitvector[t[1]]
+    if k == "cont":
+        _cnt[0] += 1
+        return type("F%d" % _cnt[0], (Container,), {"__annotations__": {"f%d" % i: T(ft) for i, ft in enumerate(t[1])}})
+    return T(t)
 
 
 def to_plain(t, v):
